@@ -26,7 +26,7 @@ PROP = dict(
           "leaves (a paused leaf holds its work back), resumes 0-3 ticks after (or inside) the root's block callback and applies the "
           "script. Run A: script S1 of 3-30 ticks: start only / start plus 1-3 pause-resume pairs with gap 0-4 / 2-8 random "
           "start,pause,resume,stop,reset calls at random ticks incl. redundant ones, pause..resume+stop(+reset+start) and "
-          "stop+reset+start in one tick. Then stop+reset+start in one tick, reset+start without stop, or stop/reset/start over three "
+          "stop+reset+start in one tick; the root's block callback resumes (80%), calls stop() (10%) or does nothing (10%), the root's finish callback does reset()+start() 1-2 times in 20% of the cases. Then stop+reset+start in one tick, reset+start without stop, or stop/reset/start over three "
           "ticks, and run B under S2 (0-3 pause-resume pairs, optional cut-off tick, optional resume right before the final "
           "stop+delete); run B' repeats S2 on a freshly built tree. Every run ends with stop()+delete in one tick followed by three "
           "more passes under ASan. exhaustive: every single composite (all modes; Sequence/Parallel with 2 and 3 children; IfElse 3 "
@@ -42,8 +42,9 @@ PROP = dict(
         "Sequence succeeds; Parallel always reports success and finishes when all children finished or (AnySucc/AnyFail) one child "
         "delivered the deciding result, then stops the others; IfElse with the taken branch missing succeeds (tests "
         "CondSuccNoIfAction/CondFailNoElseAction); IfThen with no condition true fails; Switch fails when the switch child fails or no "
-        "case/default matches, the case is the child's reason message; Repeat that runs out of times (also times=0: no child start) "
-        "succeeds; LoopIf ends with setFinishResult()'s value when the condition fails.",
+        "case/default matches, the case is the child's reason message; Repeat that runs out of times succeeds, Repeat with times=0 "
+        "repeats forever (baseline test RepeatAction.FunctionActionForeverNoBreak constructs exactly that, although the header's for-loop "
+        "would give zero iterations); LoopIf ends with setFinishResult()'s value when the condition fails.",
         "Probe leaves behave like well-written leaves: they finish/block only while running (work is held back while paused), continue "
         "from onResume only after their own block, and drop their pending work in onStop/onReset.",
         "A timed-out node must finish with failure, never before its timeout of un-paused run time (time spent blocked counts, because "
@@ -80,7 +81,7 @@ PROP = dict(
         # queued notifications withdrawn on reset / stop / destruction
         "reset_with_finish_notification_queued", "reset_with_block_notification_queued", "stop_with_block_notification_queued",
         "stop_then_delete_in_one_tick", "resume_then_stop_then_delete_in_one_tick",
-        "root_finish_callback", "root_block_callback", "resume_inside_block_callback", "resume_some_ticks_after_block_callback",
+        "root_finish_callback", "root_block_callback", "restart_inside_finish_callback", "stop_inside_block_callback", "resume_inside_block_callback", "resume_some_ticks_after_block_callback",
         # lifecycle state machine
         "pause_effective", "resume_effective", "stop_effective", "reset_effective", "reset_while_underway", "stopped_while_paused",
         "several_control_calls_in_one_tick", "final_hook",
